@@ -28,6 +28,7 @@ func init() {
 			"R3 refusal: every function with constant accesses to a []byte parameter has a length guard covering its largest bound (unexported functions: every call site passes a constant-width slice of sufficient width); narrowing integer conversions in writers are preceded by a range check of the source that returns an error. " +
 			"R4 stream codecs: for every type with a Marshal/Unmarshal (or MarshalToBytes/UnmarshalFromBytes) pair the ordered field sequences agree; fixed-size HOB writers return the sum of the static sizes of what they write. " +
 			"R5 read counts: every io.Reader.Read call in eventlog and ovmf/abi has its count compared with the requested length (or is io.ReadFull). " +
+			"R10 no decoder of the stream codec packages calls Reader.Read directly; fixed-size fields are read with io.ReadFull / binary.Read / io.ReadAll. " +
 			"R9 an encoder method (Marshal*, Put*, WriteTo, Bytes) of the codec packages never writes through its receiver. " +
 			"R8 a decoding helper that returns its result through a pointer-to-slice parameter assigns it before every successful return (no stale destination). " +
 			"R7 a stream encoder (function of eventlog / ovmf/abi taking a writer) never writes a prefix x[:k] of an encoded field unless len(x) == k was established on the path: an over-long value is refused, not truncated. " +
@@ -527,6 +528,47 @@ func runC18(c *Ctx) {
 			}
 		}
 	}
+	// ---------------- R10 fixed-size fields are read with io.ReadFull ----------------
+	// io.Reader.Read may return fewer bytes than asked with a nil error (a buffered reader at its buffer boundary, a
+	// pipe at a chunk boundary). A decoder that issues one Read for a fixed-size field and compares the count refuses
+	// a valid encoding depending on where its bytes fall (finding F21). In the stream codec packages no decoder calls
+	// Read on a reader directly; fixed-size fields go through io.ReadFull, binary.Read or io.ReadAll.
+	{
+		nFull, nBare := 0, 0
+		for _, f := range c.P.RepoFunctions() {
+			switch load.RelPkg(f) {
+			case "eventlog", "extract/eventlog", "ovmf/abi":
+			default:
+				continue
+			}
+			if c.isTestFunc(f) {
+				continue
+			}
+			for _, call := range callsIn(f, func(ssa.CallInstruction) bool { return true }) {
+				cc := call.Common()
+				if cal := cc.StaticCallee(); cal != nil && (cal.String() == "io.ReadFull" || cal.String() == "io.ReadAtLeast") {
+					nFull++
+					continue
+				}
+				isRead := false
+				if cc.IsInvoke() && cc.Method.Name() == "Read" && len(cc.Args) == 1 {
+					isRead = true
+				} else if cal := cc.StaticCallee(); cal != nil && cal.Name() == "Read" && cal.Signature.Recv() != nil && cal.Signature.Params().Len() == 1 && cal.Signature.Params().At(0).Type().String() == "[]byte" {
+					isRead = true
+				}
+				if !isRead || f.Name() == "Read" {
+					continue // a type's own Read method may forward to the reader it wraps
+				}
+				nBare++
+				c.S.Bad("R10", load.FuncName(f)+":bare Read", c.pos(call.Pos()), "the decoder reads a field with a single Reader.Read call: a short read, which io.Reader permits with a nil error, makes it refuse (or mis-decode) a valid encoding")
+			}
+		}
+		if nBare == 0 {
+			c.S.OK("R10", "stream decoders:no bare Read", "", fmt.Sprintf("no direct Reader.Read in the codec packages; %d io.ReadFull sites", nFull), true)
+		}
+		c.S.Floor("R10", "io.ReadFull sites in the stream codec packages", 3, nFull)
+	}
+
 	// ---------------- R9 encoders do not write the value they encode ----------------
 	// A method of the codec packages that encodes its receiver (Marshal*, Put*, WriteTo, Bytes) performs no store,
 	// element assignment or copy whose destination is reached from the receiver: encoding a value twice gives the
